@@ -131,6 +131,8 @@ package action
 //@   ensures [default-new] !old(u.ResetValues) && !old(u.ReuseValues) && !old(u.ResetThenReuseValues) && !(len(newVals) == 0 && old(len(current.Config)) > 0) ==> err == nil && result == newVals && chart.Values == old(chart.Values)
 //@   ensures [default-old] !old(u.ResetValues) && !old(u.ReuseValues) && !old(u.ResetThenReuseValues) && len(newVals) == 0 && old(len(current.Config)) > 0 ==> err == nil && result == old(current.Config) && chart.Values == old(chart.Values)
 
+//@ ghost func cfgReady(cfg *Configuration) bool = cfg != nil && cfg.KubeClient != nil && cfg.Releases != nil && cfg.Releases.Driver != nil
+
 // ---- C06: dry-run never mutates the cluster or the release history
 
 //@ ghost func installDryRun(i *Install) bool = i.DryRun || i.DryRunOption == "client" || i.DryRunOption == "server" || i.DryRunOption == "true"
@@ -142,7 +144,7 @@ package action
 
 //@ func (*Install).RunWithContext
 //@   props C06
-//@   requires i != nil && i.cfg != nil && i.cfg.KubeClient != nil && i.cfg.Releases != nil && chrt != nil
+//@   requires i != nil && cfgReady(i.cfg) && chrt != nil && ledgerWF()
 //@   ensures [dry-run-no-cluster-mutation] old(installDryRun(i)) ==> Kmutated == old(Kmutated)
 //@   ensures [dry-run-no-storage-write] old(installDryRun(i)) ==> Dwritten == old(Dwritten)
 
@@ -155,7 +157,7 @@ package action
 
 //@ func (*Upgrade).prepareUpgrade
 //@   props C06
-//@   requires u != nil && u.cfg != nil && u.cfg.KubeClient != nil && u.cfg.Releases != nil
+//@   requires u != nil && cfgReady(u.cfg) && ledgerWF()
 //@   ensures [prepare-no-cluster-mutation] Kmutated == old(Kmutated)
 //@   ensures [prepare-no-storage-write] Dwritten == old(Dwritten)
 //@   ensures [selectors-unchanged] upgradeDryRun(u) == old(upgradeDryRun(u))
@@ -163,27 +165,27 @@ package action
 
 //@ func (*Upgrade).performUpgrade
 //@   props C06
-//@   requires u != nil && u.cfg != nil && u.cfg.KubeClient != nil && u.cfg.Releases != nil && originalRelease != nil && upgradedRelease != nil && upgradedRelease.Info != nil
+//@   requires u != nil && cfgReady(u.cfg) && ledgerWF() && originalRelease != nil && upgradedRelease != nil && upgradedRelease.Info != nil
 //@   ensures [dry-run-no-cluster-mutation] old(upgradeDryRun(u)) ==> Kmutated == old(Kmutated)
 //@   ensures [dry-run-no-storage-write] old(upgradeDryRun(u)) ==> Dwritten == old(Dwritten)
 //@   ensures [selectors-unchanged] upgradeDryRun(u) == old(upgradeDryRun(u))
 
 //@ func (*Upgrade).RunWithContext
 //@   props C06
-//@   requires u != nil && u.cfg != nil && u.cfg.KubeClient != nil && u.cfg.Releases != nil
+//@   requires u != nil && cfgReady(u.cfg) && ledgerWF()
 //@   ensures [dry-run-no-cluster-mutation] old(upgradeDryRun(u)) ==> Kmutated == old(Kmutated)
 //@   ensures [dry-run-no-storage-write] old(upgradeDryRun(u)) ==> Dwritten == old(Dwritten)
 
 //@ func (*Rollback).performRollback
 //@   props C06
-//@   requires r != nil && r.cfg != nil && r.cfg.KubeClient != nil && r.cfg.Releases != nil && currentRelease != nil && targetRelease != nil
+//@   requires r != nil && cfgReady(r.cfg) && ledgerWF() && currentRelease != nil && currentRelease.Info != nil && targetRelease != nil && targetRelease.Info != nil && hooksNonNil(targetRelease.Hooks) && (forall m string :: !Kunwatched[m])
 //@   ensures [dry-run-no-cluster-mutation] old(r.DryRun) ==> Kmutated == old(Kmutated)
 //@   ensures [dry-run-no-storage-write] old(r.DryRun) ==> Dwritten == old(Dwritten)
 //@   ensures [selector-unchanged] r.DryRun == old(r.DryRun)
 
 //@ func (*Rollback).prepareRollback
 //@   props C06
-//@   requires r != nil && r.cfg != nil && r.cfg.Releases != nil
+//@   requires r != nil && cfgReady(r.cfg) && ledgerWF()
 //@   ensures [prepare-no-cluster-mutation] Kmutated == old(Kmutated)
 //@   ensures [prepare-no-storage-write] Dwritten == old(Dwritten)
 //@   ensures [selector-unchanged] r.DryRun == old(r.DryRun)
@@ -191,6 +193,42 @@ package action
 
 //@ func (*Rollback).Run
 //@   props C06
-//@   requires r != nil && r.cfg != nil && r.cfg.KubeClient != nil && r.cfg.Releases != nil
+//@   requires r != nil && cfgReady(r.cfg) && ledgerWF() && (forall m string :: !Kunwatched[m])
 //@   ensures [dry-run-no-cluster-mutation] old(r.DryRun) ==> Kmutated == old(Kmutated)
 //@   ensures [dry-run-no-storage-write] old(r.DryRun) ==> Dwritten == old(Dwritten)
+
+// ---- C01: revision numbering and the deployed marker at the action level
+
+//@ ghost func atMostOneDeployed(name string) bool = forall a, b int :: Dex[mkkey(name, a)] && Dst[mkkey(name, a)] == "deployed" && Dex[mkkey(name, b)] && Dst[mkkey(name, b)] == "deployed" ==> a == b
+//@ ghost func noDeployedRevision(name string) bool = forall v int :: !(Dex[mkkey(name, v)] && Dst[mkkey(name, v)] == "deployed")
+//@ ghost func aboveAll(name string, rev int) bool = forall v int :: Dex[mkkey(name, v)] ==> v < rev
+
+//@ func (*Install).createRelease
+//@   props C01
+//@   requires i != nil && i.cfg != nil
+//@   ensures [fresh-record] result != nil && fresh(result) && result.Info != nil && fresh(result.Info)
+//@   ensures [first-revision] result.Version == 1 && result.Name == i.ReleaseName && result.Info.Status == "unknown"
+//@   ensures [ledger-untouched] Dex == old(Dex) && Dst == old(Dst) && Dwritten == old(Dwritten)
+
+//@ func (*Install).recordRelease
+//@   props C01
+//@   requires i != nil && cfgReady(i.cfg) && r != nil && r.Info != nil
+//@   ensures [ok] result == nil ==> Dex[mkkey(r.Name, r.Version)] && Dst == store(old(Dst), mkkey(r.Name, r.Version), r.Info.Status)
+//@   ensures [failed] result != nil ==> Dst == old(Dst)
+//@   ensures [frame] Dex == old(Dex) && Dname == old(Dname) && Dver == old(Dver)
+
+//@ func (*Install).replaceRelease
+//@   props C01
+//@   requires i != nil && cfgReady(i.cfg) && rel != nil && ledgerWF() && atMostOneDeployed(rel.Name)
+//@   ensures [next-revision] result == nil && (exists v int :: old(Dex)[mkkey(rel.Name, v)]) ==> aboveAll(rel.Name, rel.Version)
+//@   ensures [no-history] !(exists v int :: old(Dex)[mkkey(rel.Name, v)]) ==> rel.Version == old(rel.Version) && result == nil
+//@   ensures [no-other-deployed] result == nil ==> noDeployedRevision(rel.Name)
+//@   ensures [existence-untouched] Dex == old(Dex) && Dname == old(Dname) && Dver == old(Dver)
+//@   loop 1 invariant [older-not-deployed] forall j int :: 1 <= j && j <= #iter ==> Dst[mkkey(rel.Name, hist[j].Version)] != "deployed"
+//@   loop 1 invariant [frame] Dex == old(Dex) && Dname == old(Dname) && Dver == old(Dver)
+//@   loop 1 invariant [others-as-stored] forall j int :: #iter < j && j < len(hist) ==> Dst[mkkey(rel.Name, hist[j].Version)] == hist[j].Info.Status
+//@   loop 1 invariant [last-as-stored] Dst[mkkey(rel.Name, last.Version)] == last.Info.Status
+//@   loop 1 invariant [elements] forall j int :: 0 <= j && j < len(hist) ==> hist[j] != nil && hist[j].Info != nil && hist[j].Name == rel.Name && Dex[mkkey(rel.Name, hist[j].Version)]
+//@   loop 1 invariant [distinct] forall a, b int :: 0 <= a && a < b && b < len(hist) ==> hist[a].Version != hist[b].Version && hist[a] != hist[b] && hist[a].Info != hist[b].Info
+//@   loop 1 invariant [covers] forall v int :: Dex[mkkey(rel.Name, v)] ==> (exists j int :: 0 <= j && j < len(hist) && hist[j].Version == v)
+//@   loop 1 invariant [next] rel.Version == last.Version + 1 && last == hist[0] && len(hist) > 0 && aboveAll(rel.Name, rel.Version)
